@@ -1095,16 +1095,6 @@ def run(tier, seed, replay=None):
     if not ok:
         core.broken_proof(ctx, search)
 
-    if tier == "thorough" and ok:
-        rc, out = core.sh("timeout 1500 coqchk -silent -o -Q . DV DV.Props.C18", cwd=core.COQ, timeout=1530)
-        flat = " ".join(out.split())
-        clean = (rc == 0 and "* Axioms: <none>" in flat and "type-in-type: <none>" in flat
-                 and "unsafe (co)fixpoints: <none>" in flat and "positivity is assumed: <none>" in flat)
-        ctx.obligation("coqchk -o DV.Props.C18: no axioms, no unsafe flags", clean)
-        ctx.notes.append("coqchk: " + flat[flat.find("CONTEXT SUMMARY"):][:400])
-        if not clean:
-            core.broken_proof(ctx, search)
-
     form = probe_fresh_label_site()
     FRESH_NEW[0] = (form == "new")
     ctx.notes.append("fresh-label site form in the working tree: %s" % form)
